@@ -10,7 +10,8 @@ From MT Require Import Constants.
 Record rparam := RParam { rname : string; rkind : pkind; rhasdef : bool; ranno : option anno }.
 
 Record ucase := UCase {
-  u_strat : nat;                              (* enum VALUE handed to the API (ignored for CLI cases) *)
+  u_sname : string;                           (* enum member NAME requested (ignored for CLI cases) *)
+  u_strat : nat;                              (* its VALUE in the live enum (ignored for CLI cases) *)
   u_cli : option (string * list string);      (* CLI case: (parser/group variable, strategy flags given) *)
   u_kind : string;                            (* FunctionKind member the implementation derived *)
   u_sig : sig;                                (* inspect.Signature.from_callable(func) *)
@@ -85,30 +86,51 @@ Definition rendered_param_ok (env : list (string * ty)) (o : param) (r : rparam)
 Definition rendered_ok (env : list (string * ty)) (o : sig) (r : list rparam * option anno) : bool :=
   all2 (rendered_param_ok env) (sparams o) (fst r) && denote_eqb env (sret o) (snd r).
 
-(* the outputs the statement allows at one position (cf. SigUpdate.allowed) *)
-Definition candidates (s : nat) (recv : bool) (src : option anno) (tr : option ty) : list (option anno) :=
-  if recv then [if is_strat "OMIT" s then None else src]
-  else if is_strat "REPLICATE" s then [match src with Some a => Some a | None => option_map ATy tr end]
-  else if is_strat "OMIT" s then [match src with Some _ => None | None => option_map ATy tr end]
-  else if is_strat "IGNORE" s then match tr with Some t => [Some (ATy t)] | None => [None; src] end
+(* ---- the DOCUMENTED meaning, written out here independently of the regenerated tables, so that the
+        property predicate (verdict 2) does not follow a change of those tables ---- *)
+Definition doc_self (kind : string) : bool :=
+  mem_str kind ["CLASS"; "INSTANCE"; "PROPERTY"; "DJANGO_CACHED_PROPERTY"]%string.
+
+(* which member a command line selects; None = argparse must refuse it *)
+Definition doc_flags (parser : string) (flags : list string) : option string :=
+  match flags with
+  | [] => Some "REPLICATE"%string
+  | [f] => if String.eqb f "--ignore-existing-annotations" then Some "IGNORE"%string
+           else if String.eqb f "--omit-existing-annotations" && String.eqb parser "group" then Some "OMIT"%string
+           else None
+  | _ => None
+  end.
+
+Record mode := Mode { mR : bool; mO : bool; mI : bool }.
+Definition mode_of_name (n : string) : mode :=
+  Mode (String.eqb n "REPLICATE") (String.eqb n "OMIT") (String.eqb n "IGNORE").
+Definition mode_known (m : mode) : bool := mR m || mO m || mI m.
+Definition allowed_m (m : mode) := allowed_b (mR m) (mO m) (mI m).
+
+(* the outputs the statement allows at one position (cf. SigUpdate.allowed_b) *)
+Definition candidates (m : mode) (recv : bool) (src : option anno) (tr : option ty) : list (option anno) :=
+  if recv then [if mO m then None else src]
+  else if mR m then [match src with Some a => Some a | None => option_map ATy tr end]
+  else if mO m then [match src with Some _ => None | None => option_map ATy tr end]
+  else if mI m then match tr with Some t => [Some (ATy t)] | None => [None; src] end
   else [].
 
-Fixpoint rendered_allowed_params (env : list (string * ty)) (s : nat) (hs : bool) (args : list (string * ty))
+Fixpoint rendered_allowed_params (env : list (string * ty)) (m : mode) (hs : bool) (args : list (string * ty))
          (idx : nat) (src : list param) (rs : list rparam) : bool :=
   match src, rs with
   | [], [] => true
   | p :: ps, r :: rs' =>
       existsb (fun c => rendered_param_ok env (set_anno p c) r)
-              (candidates s (hs && Nat.eqb idx 0) (panno p) (lookup_f (pname p) args))
-      && rendered_allowed_params env s hs args (S idx) ps rs'
+              (candidates m (hs && Nat.eqb idx 0) (panno p) (lookup_f (pname p) args))
+      && rendered_allowed_params env m hs args (S idx) ps rs'
   | _, _ => false
   end.
 
-Definition rendered_allowed (env : list (string * ty)) (s : nat) (kind : string) (sg : sig) (tr : traced)
+Definition rendered_allowed (env : list (string * ty)) (m : mode) (kind : string) (sg : sig) (tr : traced)
            (r : list rparam * option anno) : bool :=
-  rendered_allowed_params env s (has_self kind) (targs tr) 0 (sparams sg) (fst r)
+  rendered_allowed_params env m (doc_self kind) (targs tr) 0 (sparams sg) (fst r)
   && existsb (fun c => denote_eqb env c (snd r))
-             (candidates s false (sret sg) (traced_return (tret tr) (tyield tr))).
+             (candidates m false (sret sg) (traced_return (tret tr) (tyield tr))).
 
 (* ---- well-formedness of a case ---- *)
 Definition trace_tys (t : trace) : list ty :=
@@ -124,8 +146,8 @@ Definition all_names (c : ucase) : list string :=
 Definition worst (a b : nat) : nat :=      (* 3 > 2 > 1 > 0 *)
   Nat.max a b.
 
-Definition verdict_with (s : nat) (c : ucase) : nat :=
-  if negb (known_strat s) || negb (td_free_case c) then 3 else
+Definition verdict_with (m : mode) (s : nat) (c : ucase) : nat :=
+  if negb (mode_known m) || negb (td_free_case c) then 3 else
   if u_raised c || u_usage c then 2 else
   match collect (u_k c) (u_traces c) with
   | None => 3
@@ -140,13 +162,13 @@ Definition verdict_with (s : nat) (c : ucase) : nat :=
       let mo := update_sig s (u_kind c) (u_sig c) trm in
       let v_out :=
           match u_out c with
-          | Some out => if negb (spec_sig s (u_kind c) (u_sig c) tri out) then 2
+          | Some out => if negb (spec_sig_with (allowed_m m) (doc_self (u_kind c)) (u_sig c) tri out) then 2
                         else if sig_corrb mo out then 0 else 1
           | None => 0 end in
       let v_rendered :=
           match u_rendered c with
           | Some r =>
-              if negb (rendered_allowed (u_env c) s (u_kind c) (u_sig c) tri r) then 2
+              if negb (rendered_allowed (u_env c) m (u_kind c) (u_sig c) tri r) then 2
               else if negb (match u_out c with Some out => rendered_ok (u_env c) out r | None => true end) then 2
               else if rendered_ok (u_env c) mo r then 0 else 1
           | None => 0 end in
@@ -158,11 +180,18 @@ Definition verdict_with (s : nat) (c : ucase) : nat :=
 
 Definition verdict_c13 (c : ucase) : nat :=
   match u_cli c with
-  | None => verdict_with (u_strat c) c
+  | None =>
+      (* the value handed to the API must be the table's value of the requested member *)
+      if negb (is_strat (u_sname c) (u_strat c)) then 1
+      else verdict_with (mode_of_name (u_sname c)) (u_strat c) c
   | Some (parser, flags) =>
-      match cli_strategy parser flags with
-      | CliStrategy s => verdict_with s c
-      | CliUsageError => if u_usage c then 0 else 1     (* the model predicts argparse's refusal *)
-      | CliNoSuchMember => 3
+      match doc_flags parser flags with
+      | None => if u_usage c then (match cli_strategy parser flags with CliUsageError => 0 | _ => 1 end) else 2
+      | Some name =>
+          match cli_strategy parser flags with
+          | CliStrategy s => worst (verdict_with (mode_of_name name) s c) (if is_strat name s then 0 else 1)
+          | CliUsageError => worst (verdict_with (mode_of_name name) 0 c) 1
+          | CliNoSuchMember => 3
+          end
       end
   end.
